@@ -37,13 +37,37 @@ theorem C02_table (cfg : Cfg) (ms : List Meth) (wf : cfg.H.WF) (anti : cfg.H.Ant
     specAgrees (((MMap.fresh ms).runLookups cfg hist).lookup cfg (none, k)).2 (specResolve cfg.H ms k) := by
   have ok := plan_ok cfg ms hd.ids hd.codes
   have h0 := MMap.fresh_inv cfg ms
-  have h1 := (MMap.runLookups_inv cfg ms _ ok hist _ h0).1
-  rw [(MMap.lookup_spec cfg ms _ ok _ h1 (none, k)).1]
-  obtain ⟨a, k', rfl⟩ : ∃ a k', k = a :: k' := by
-    cases k with
-    | nil => exact absurd rfl hne
-    | cons a b => exact ⟨a, b, rfl⟩
-  rw [MMap.pure_cons]
+  have h1 := (MMap.runLookups_inv cfg ms ok hist _ h0).1
+  rw [(MMap.lookup_spec cfg ms ok _ h1 (none, k)).1]
+  rw [MMap.pure_eq]
   exact C02_partial cfg ms wf anti hd hst htw _ hk hne hcc htie
+
+/-! ## the call without arguments
+
+Since the `fix:` for finding D9 the key `[]` is resolved like every other key (`Model/MultiMap.lean: zeroArgIds`):
+the methods that require no argument compete on priority, then recency between identical signatures.  The
+hypothesis `candComparable` is vacuous for `[]` (there is no slot to compare) and is not needed. -/
+
+theorem candComparable_nil (H : Hier) (ms : List Meth) : candComparable H ms [] = true := by
+  simp [candComparable]
+
+/-- `C02_partial` for the call without arguments -/
+theorem C02_partial_zero_args (cfg : Cfg) (ms : List Meth) (wf : cfg.H.WF) (anti : cfg.H.Antisym)
+    (hd : DistinctHandlers ms) (hst : staticTable ms = true) (htw : tableWF ms = true)
+    (htie : sigTieOK cfg.H ms [] = true) :
+    specAgrees (pureLookup (plan cfg ms) (none, [])) (specResolve cfg.H ms []) := by
+  have _ := htw
+  exact pure_agrees_all cfg ms wf anti hd.ids hst [] (fun _ h => by cases h) (candComparable_nil cfg.H ms) htie
+
+/-- `C02_table` for the call without arguments -/
+theorem C02_table_zero_args (cfg : Cfg) (ms : List Meth) (wf : cfg.H.WF) (anti : cfg.H.Antisym)
+    (hd : DistinctHandlers ms) (hst : staticTable ms = true) (htw : tableWF ms = true)
+    (htie : sigTieOK cfg.H ms [] = true) (hist : List (CKey Key)) :
+    specAgrees (((MMap.fresh ms).runLookups cfg hist).lookup cfg (none, [])).2 (specResolve cfg.H ms []) := by
+  have ok := plan_ok cfg ms hd.ids hd.codes
+  have h0 := MMap.fresh_inv cfg ms
+  have h1 := (MMap.runLookups_inv cfg ms ok hist _ h0).1
+  rw [(MMap.lookup_spec cfg ms ok _ h1 (none, [])).1, MMap.pure_eq]
+  exact C02_partial_zero_args cfg ms wf anti hd hst htw htie
 
 end Ovld
